@@ -173,7 +173,8 @@ Inductive sop :=
 | SSubAll (lo len : nat) (ys : vec)       (* rxnset[lo:lo+len].X = ys *)
 | SSubElem (lo len i : nat) (x : Q)       (* rxnset[lo:lo+len].X[i] = x *)
 | SItemMul (i : nat) (k : Q)              (* item *= k : Reaction.__imul__ goes through the item's X property *)
-| SItemDiv (i : nat) (k : Q).             (* item /= k : __itruediv__ = __imul__(1./k) *)
+| SItemDiv (i : nat) (k : Q)              (* item /= k : __itruediv__ = __imul__(1./k) *)
+| SReduce.                                (* rxnset.reduce(): returns a NEW set, the receiver is untouched *)
 
 Fixpoint write_from (xs : vec) (lo : nat) (ys : vec) : vec :=
   match ys with
@@ -195,6 +196,7 @@ Definition sstep (xs : vec) (o : sop) : res vec :=
   | SSubAll lo len ys => do zs <- broadcast len ys; Ok (write_from xs lo zs)
   | SSubElem lo len i x => if Nat.ltb i len then Ok (upd xs (lo + i) x) else Err EIndex
   | SItemMul i k => if Nat.ltb i (length xs) then Ok (upd xs i (nthq xs i * k)) else Err EIndex
+  | SReduce => Ok xs
   | SItemDiv i k => if qzerob k then Err EZeroDiv
                     else if Nat.ltb i (length xs) then Ok (upd xs i (nthq xs i * (1 / k))) else Err EIndex
   end.
